@@ -342,8 +342,8 @@ OffsetOf(tok, i) ==
 \* local wall-clock fields + offset -> the record of IonData (UTC fields)
 Localised(y, mo, d, h, mi, s, frac, o, prec) ==
   LET u == AddMinutes([y |-> y, mo |-> mo, d |-> d, h |-> h, mi |-> mi], 0 - o.off)
-  IN IF u.y < 1 \/ u.y > 9999 THEN Rej("open: timestamp whose UTC year leaves 0001..9999", 0)
-     ELSE [ok |-> TRUE, ts |-> TsRec(u.y, u.mo, u.d, u.h, u.mi, s, frac, o.off, o.known, prec)]
+  IN \* the local year is within 0001..9999 (checked by the caller); the UTC year may be 0 or 10000
+     [ok |-> TRUE, ts |-> TsRec(u.y, u.mo, u.d, u.h, u.mi, s, frac, o.off, o.known, prec)]
 
 ParseTimestampTok(tok) ==
   LET bad == Rej("malformed timestamp", 0)
